@@ -1,6 +1,219 @@
 package main
 
-// genLockFacts is filled in with the C10 work; until then it emits an empty module.
-func genLockFacts(repo string) (string, error) {
-	return "/- generated from /repo by vharness astfacts; do not edit -/\nnamespace Generated\nend Generated\n", nil
+import (
+	"fmt"
+	"go/ast"
+	"go/parser"
+	"go/token"
+	"os"
+	"path/filepath"
+	"sort"
+	"strings"
+)
+
+// genLockFacts parses /repo's non-test sources and emits, as Lean data, the lock-discipline facts
+// of every method of *BackupFS (C10): whether the body takes the mutex at entry and releases it by
+// a deferred Unlock, whether it unlocks explicitly, which of baseInfos / base / backup it touches,
+// whether it issues a mutating call on them, and which other methods of the receiver it calls.
+// A missing mu.Lock() is invisible to single-threaded differential testing: this is the one
+// syntactic tie of the framework (DESIGN 4.4).
+
+type regionFact struct {
+	RefsInfos    bool     // mentions fsys.baseInfos
+	MutatingCall bool     // a mutating method on fsys.base / fsys.backup (directly or through a helper taking them)
+	Calls        []string // methods of the receiver called
 }
+
+type methodFact struct {
+	Name          string
+	Exported      bool
+	LockPair      bool // a top-level `mu.Lock()` immediately followed by `defer mu.Unlock()`
+	LocksAnywhere bool
+	EarlyUnlock   bool       // an explicit (non-deferred) mu.Unlock() call
+	Unlocked      regionFact // the statements before the lock pair (the whole body if there is none)
+	Locked        regionFact // the statements after the lock pair
+}
+
+var mutatingFSMethods = map[string]bool{"Create": true, "Mkdir": true, "MkdirAll": true, "OpenFile": true, "Remove": true,
+	"RemoveAll": true, "Rename": true, "Chmod": true, "Chown": true, "Chtimes": true, "Symlink": true, "Lchown": true}
+
+// package-level helpers that mutate the filesystem they are handed
+var mutatingHelpers = map[string]bool{"copyDir": true, "copyFile": true, "copySymlink": true, "restoreFile": true,
+	"restoreSymlink": true, "writeFile": true, "chown": true}
+
+func isMuCall(e ast.Expr, recv, name string) bool {
+	call, ok := e.(*ast.CallExpr)
+	if !ok {
+		return false
+	}
+	sel, ok := call.Fun.(*ast.SelectorExpr)
+	if !ok || sel.Sel.Name != name {
+		return false
+	}
+	inner, ok := sel.X.(*ast.SelectorExpr)
+	if !ok || inner.Sel.Name != "mu" {
+		return false
+	}
+	id, ok := inner.X.(*ast.Ident)
+	return ok && id.Name == recv
+}
+
+func genLockFacts(repo string) (string, error) {
+	fset := token.NewFileSet()
+	files, _ := filepath.Glob(filepath.Join(repo, "*.go"))
+	sort.Strings(files)
+	var facts []methodFact
+	pkgFuncsTouchingInfos := []string{}
+	for _, fn := range files {
+		if strings.HasSuffix(fn, "_test.go") || strings.HasSuffix(fn, "_windows.go") {
+			continue
+		}
+		f, err := parser.ParseFile(fset, fn, nil, 0)
+		if err != nil {
+			return "", err
+		}
+		for _, d := range f.Decls {
+			fd, ok := d.(*ast.FuncDecl)
+			if !ok || fd.Body == nil {
+				continue
+			}
+			if fd.Recv == nil {
+				// a package function mentioning baseInfos would bypass the discipline
+				mentions := false
+				ast.Inspect(fd.Body, func(n ast.Node) bool {
+					if sel, ok := n.(*ast.SelectorExpr); ok && sel.Sel.Name == "baseInfos" {
+						mentions = true
+					}
+					return true
+				})
+				if mentions {
+					pkgFuncsTouchingInfos = append(pkgFuncsTouchingInfos, fd.Name.Name)
+				}
+				continue
+			}
+			// receiver must be *BackupFS
+			star, ok := fd.Recv.List[0].Type.(*ast.StarExpr)
+			if !ok {
+				continue
+			}
+			id, ok := star.X.(*ast.Ident)
+			if !ok || id.Name != "BackupFS" || len(fd.Recv.List[0].Names) == 0 {
+				continue
+			}
+			recv := fd.Recv.List[0].Names[0].Name
+			mf := methodFact{Name: fd.Name.Name, Exported: fd.Name.IsExported()}
+			stmts := fd.Body.List
+			lockIdx := -1
+			for i := 0; i+1 < len(stmts); i++ {
+				es, ok1 := stmts[i].(*ast.ExprStmt)
+				ds, ok2 := stmts[i+1].(*ast.DeferStmt)
+				if ok1 && ok2 && isMuCall(es.X, recv, "Lock") && isMuCall(ds.Call, recv, "Unlock") {
+					lockIdx = i
+					mf.LockPair = true
+					break
+				}
+			}
+			region := func(list []ast.Stmt) regionFact {
+				var rf regionFact
+				calls := map[string]bool{}
+				inDefer := 0
+				var visit func(n ast.Node) bool
+				visit = func(n ast.Node) bool {
+					switch x := n.(type) {
+					case *ast.DeferStmt:
+						inDefer++
+						ast.Inspect(x.Call, visit)
+						inDefer--
+						return false
+					case *ast.CallExpr:
+						if isMuCall(x, recv, "Lock") {
+							mf.LocksAnywhere = true
+						}
+						if isMuCall(x, recv, "Unlock") && inDefer == 0 {
+							mf.EarlyUnlock = true
+						}
+						if sel, ok := x.Fun.(*ast.SelectorExpr); ok {
+							if inner, ok := sel.X.(*ast.SelectorExpr); ok {
+								if rid, ok := inner.X.(*ast.Ident); ok && rid.Name == recv && (inner.Sel.Name == "base" || inner.Sel.Name == "backup") {
+									mut := mutatingFSMethods[sel.Sel.Name]
+									// OpenFile(name, os.O_RDONLY, …) only reads
+									if sel.Sel.Name == "OpenFile" && len(x.Args) >= 2 {
+										if fs, ok := x.Args[1].(*ast.SelectorExpr); ok && fs.Sel.Name == "O_RDONLY" {
+											mut = false
+										}
+									}
+									if mut {
+										rf.MutatingCall = true
+									}
+								}
+							}
+							if rid, ok := sel.X.(*ast.Ident); ok && rid.Name == recv {
+								calls[sel.Sel.Name] = true
+							}
+						}
+						if fid, ok := x.Fun.(*ast.Ident); ok && mutatingHelpers[fid.Name] {
+							for _, a := range x.Args {
+								if as, ok := a.(*ast.SelectorExpr); ok {
+									if rid, ok := as.X.(*ast.Ident); ok && rid.Name == recv && (as.Sel.Name == "base" || as.Sel.Name == "backup") {
+										rf.MutatingCall = true
+									}
+								}
+							}
+						}
+					case *ast.SelectorExpr:
+						if rid, ok := x.X.(*ast.Ident); ok && rid.Name == recv && x.Sel.Name == "baseInfos" {
+							rf.RefsInfos = true
+						}
+					}
+					return true
+				}
+				for _, st := range list {
+					ast.Inspect(st, visit)
+				}
+				for c := range calls {
+					rf.Calls = append(rf.Calls, c)
+				}
+				sort.Strings(rf.Calls)
+				return rf
+			}
+			if lockIdx < 0 {
+				mf.Unlocked = region(stmts)
+			} else {
+				mf.Unlocked = region(stmts[:lockIdx])
+				mf.Locked = region(stmts[lockIdx+2:])
+				mf.LocksAnywhere = true
+			}
+			facts = append(facts, mf)
+		}
+	}
+	sort.Slice(facts, func(i, j int) bool { return facts[i].Name < facts[j].Name })
+	var b strings.Builder
+	b.WriteString("/- generated from /repo by `vharness -stream astfacts` on every run; do not edit -/\nnamespace Generated\n\n")
+	b.WriteString("structure RegionFact where\n  refsInfos : Bool\n  mutatingCall : Bool\n  calls : List String\nderiving Repr, DecidableEq\n\n")
+	b.WriteString("structure MethodFact where\n  name : String\n  exported : Bool\n  lockPair : Bool\n  locksAnywhere : Bool\n  earlyUnlock : Bool\n  unlocked : RegionFact\n  locked : RegionFact\nderiving Repr, DecidableEq\n\n")
+	b.WriteString("def lockFacts : List MethodFact := [\n")
+	q := func(l []string) string {
+		qs := make([]string, len(l))
+		for k, c := range l {
+			qs[k] = fmt.Sprintf("%q", c)
+		}
+		return "[" + strings.Join(qs, ", ") + "]"
+	}
+	for i, f := range facts {
+		sep := ","
+		if i == len(facts)-1 {
+			sep = ""
+		}
+		fmt.Fprintf(&b, "  ⟨%q, %v, %v, %v, %v, ⟨%v, %v, %s⟩, ⟨%v, %v, %s⟩⟩%s\n", f.Name, f.Exported, f.LockPair, f.LocksAnywhere, f.EarlyUnlock,
+			f.Unlocked.RefsInfos, f.Unlocked.MutatingCall, q(f.Unlocked.Calls), f.Locked.RefsInfos, f.Locked.MutatingCall, q(f.Locked.Calls), sep)
+	}
+	b.WriteString("]\n\n")
+	qs := make([]string, len(pkgFuncsTouchingInfos))
+	for k, c := range pkgFuncsTouchingInfos {
+		qs[k] = fmt.Sprintf("%q", c)
+	}
+	fmt.Fprintf(&b, "/-- package-level functions that mention `baseInfos` (expected: none) -/\ndef pkgFuncsTouchingInfos : List String := [%s]\n\nend Generated\n", strings.Join(qs, ", "))
+	return b.String(), nil
+}
+
+var _ = os.Stat
